@@ -1,0 +1,363 @@
+// Verification contracts (comment-only, compiled only with the "verif" build tag; read by /verif/govc).
+
+//go:build verif
+// +build verif
+
+package core
+
+// Contracts for blockchain.go and block_validator.go — property C11:
+// "The canonical chain stays consistent and hash-linked under any import or crash".
+//
+// Style: S3 guard / typestate contracts (DESIGN §7 C11). The import functions are long and call into the consensus
+// engine, the state processor, the trie database and the key-value store; all of that is havocked (thin `trusted` /
+// `nobody` contracts, listed in /verif/props/C11.json). What IS checked on the SSA of the real functions is the ORDER
+// and the GUARDS: ghost variables record what a validator / writer returned for which block, and assertions anchored
+// in front of the next step demand the typestate that step needs. Ghost variables survive every havoc.
+
+// ---------------------------------------------------------------------------------------------------------------
+// Typestate of the block under import (one iteration of insertChain's loop)
+// ---------------------------------------------------------------------------------------------------------------
+
+//@ ghost var c11Seal: *types.Block            // the block whose header and seal the consensus engine accepted (VerifyHeaders result / VerifySeal == nil)
+//@ ghost var c11Body: *types.Block            // the block whose body passed ValidateBody
+//@ ghost var c11ExecBlk: *types.Block         // the block that Process executed without error …
+//@ ghost var c11ExecSt: *state.StateDB        // … on this state …
+//@ ghost var c11ExecRes: *types.ProcessResult // … with this result (receipts, gas used)
+//@ ghost var c11StateBlk: *types.Block        // the block whose post-state passed ValidateState …
+//@ ghost var c11StateSt: *state.StateDB       // … for this state
+//@ ghost var c11UnknownParentState: bool      // this iteration went through the ErrUnknownParentState case
+//@ ghost var c11Parent: *types.Block          // the stored block returned by GetBlock for (block.ParentHash(), number-1)
+//@ ghost var c11VersionOK: bool               // InsertChain: VerifyYouVersionState accepted the chain
+
+// Thin contracts of what the import calls (interfaces: `trusted`; large functions of this package: their own contracts below).
+//@ func (*BlockChain).Validator props C11
+//@ requires [nonnil] bc != nil
+//@ pure
+//@ ensures result == bc.validator
+
+//@ func (*BlockChain).isInterrupted props C11
+//@ nobody
+//@ pure
+
+//@ func (*BlockChain).insertChain props C11
+//@ requires [nonnil] bc != nil
+//@ requires [nonnil-blocks] forall k: int :: { chain[k] } 0 <= k && k < len(chain) ==> chain[k] != nil && chain[k].header != nil
+//@ modifies all, c11SideOK, c11Seal, c11Body, c11ExecBlk, c11ExecSt, c11ExecRes, c11StateBlk, c11StateSt, c11UnknownParentState, c11Parent,
+//@          c11DBCanon, c11DBHead, c11DBHeadHeader, c11DBPuts, c11DBBody, c11DBHeader, c11Written, c11StateCommitted, c11TrieFail, c11Lookups, c11BatchOK, c11LastIns, c11LastIdx, c11NC
+// every iteration starts with nothing known about its block
+//@ ghost before call (*BlockChain).isInterrupted: c11Seal := nil
+//@ ghost before call (*BlockChain).isInterrupted: c11Body := nil
+//@ ghost before call (*BlockChain).isInterrupted: c11ExecBlk := nil
+//@ ghost before call (*BlockChain).isInterrupted: c11StateBlk := nil
+//@ ghost before call (*BlockChain).isInterrupted: c11UnknownParentState := false
+//@ ghost before call (*BlockChain).isInterrupted: c11Parent := nil
+// the i-th value delivered by VerifyHeaders is the verdict on the i-th header (channel order: assumption); it is in `err`
+// when the first ValidateBody call is reached
+//@ ghost before call (Validator).ValidateBody#1: c11Seal := if err == nil then block else nil
+//@ ghost after call (Validator).ValidateBody: c11Body := if ret == nil then a0 else nil
+//@ ghost before call (consensus.Engine).VerifySeal#1: c11UnknownParentState := true
+//@ ghost after call (consensus.Engine).VerifySeal: c11Seal := if ret == nil then c11HeaderOf(a1) else nil
+//@ ghost after call (*BlockChain).GetBlock: c11Parent := ret
+//@ ghost after call (Processor).Process: c11ExecBlk := if ret1 == nil then a1 else nil
+//@ ghost after call (Processor).Process: c11ExecSt := a2
+//@ ghost after call (Processor).Process: c11ExecRes := ret0
+//@ ghost after call (Validator).ValidateState: c11StateBlk := if ret == nil then a0 else nil
+//@ ghost after call (Validator).ValidateState: c11StateSt := a2
+// --- clause 1: an invalid block never becomes canonical: the write is guarded by every validation, for THIS block and THIS state
+//@ assert before call (Validator).ValidateBody: [validate-this-block] a0 == block
+//@ assert before call (consensus.Engine).VerifySeal: [verify-seal-of-this-block] c11HeaderOf(a1) == block
+//@ assert before call (Processor).Process: [execute-this-block] a1 == block
+//@ assert before call (Validator).ValidateState: [validate-what-was-executed] a0 == block && c11ExecBlk == block && a2 == c11ExecSt &&
+//@        c11ExecRes != nil && a3 == c11ExecRes.Recs && a4 == c11ExecRes.UsedGas
+//@ assert before call (*BlockChain).WriteBlockWithState: [seal-verified] a1 == block && c11Seal == block
+// (the ErrUnknownParentState case used to re-verify the seal only: repaired, see /verif/known_findings.json "fixed")
+//@ assert before call (*BlockChain).WriteBlockWithState: [body-validated] c11Body == block
+//@ assert before call (*BlockChain).WriteBlockWithState: [executed] c11ExecBlk == block && a2 == c11ExecSt
+//@ assert before call (*BlockChain).WriteBlockWithState: [state-validated] c11StateBlk == block && c11StateSt == a2
+//@ assert before call (*BlockChain).WriteBlockWithState: [receipts-are-the-validated-ones] c11ExecRes != nil && a3 == c11ExecRes.Recs
+// the block is executed on the state of its parent: the stored block looked up by the parent hash (first block) or the
+// predecessor in the chain (linked to it by InsertChain's pre-check)
+//@ assert before call core/state.New: [executes-on-parent-state] parent != nil && a0 == parent.header.Root && a1 == parent.header.ValRoot &&
+//@        (i == 0 ==> parent == c11Parent) && (i > 0 ==> parent == chain[i-1])
+//@ assert before call (*BlockChain).GetBlock: [parent-by-hash] a1 == block.header.ParentHash
+
+// ---------------------------------------------------------------------------------------------------------------
+// Head markers: canonical hash first, then the head marker, both for the block's own hash and number
+// ---------------------------------------------------------------------------------------------------------------
+
+//@ func (*HeaderChain).SetCurrentHeader props C11
+//@ requires [nonnil] hc != nil && head != nil
+//@ modifies hc.currentHeader.v, c11DBHeadHeader, c11DBPuts
+//@ ensures [head-header-marker] c11DBHeadHeader == c11HeaderHash(head)
+
+//@ func (*BlockChain).updateHeadBlock props C11
+//@ requires [nonnil] bc != nil && block != nil && block.header != nil && block.header.Number != nil
+//@ modifies bc.currentBlock.v, c11DBCanon, c11DBHead, c11DBPuts
+//@ assert before call core/rawdb.WriteHeadBlockHash: [canonical-index-before-head-marker] c11DBCanon[c11Num(block)] == c11Hash(block)
+//@ ensures [canonical-index] c11DBCanon == store(old(c11DBCanon), c11Num(block), c11Hash(block))
+//@ ensures [head-marker] c11DBHead == c11Hash(block)
+//@ ensures [two-puts] c11DBPuts == old(c11DBPuts) + 2
+//@ ensures [memory-head] bc.currentBlock.v == box(block)
+
+//@ func (*BlockChain).insert props C11
+//@ requires [nonnil] bc != nil && bc.hc != nil && block != nil && block.header != nil && block.header.Number != nil
+//@ modifies bc.currentBlock.v, bc.hc.currentHeader.v, c11DBCanon, c11DBHead, c11DBHeadHeader, c11DBPuts
+//@ ensures [canonical-index] c11DBCanon == store(old(c11DBCanon), c11Num(block), c11Hash(block))
+//@ ensures [head-marker] c11DBHead == c11Hash(block)
+//@ ensures [memory-head] bc.currentBlock.v == box(block)
+//@ ensures [head-header-marker] c11DBHeadHeader == c11Hash(block)
+
+// ---------------------------------------------------------------------------------------------------------------
+// WriteBlockWithState: write order (crash points). Under batch atomicity and durable Puts in issue order (DESIGN §6.6)
+// every crash leaves a prefix of the writes; the assertions say which writes are behind the head marker.
+// ---------------------------------------------------------------------------------------------------------------
+
+//@ ghost var c11Written: *types.Block      // rawdb.WriteBlock was issued for this block
+//@ ghost var c11StateCommitted: bool       // state.Commit returned nil (every dirty node is in the trie database)
+//@ ghost var c11TrieFail: bool             // a TrieDB().Commit (flush to disk) returned an error
+//@ ghost var c11Lookups: *types.Block      // the tx lookup entries of this block were put into the batch
+//@ ghost var c11BatchOK: bool              // the batch (receipts + lookups) was written
+
+// thin frames of what it calls (ASSUMED: `nobody` / `trusted`; heap havocked, chain-index ghosts untouched)
+//@ func (*BlockChain).CurrentBlock props C11
+//@ nobody
+//@ pure
+
+
+//@ func (*BlockChain).WriteBlockWithState props C11
+//@ requires [nonnil] bc != nil && bc.hc != nil && block != nil && block.header != nil && block.header.Number != nil && state != nil
+//@ modifies all, c11DBCanon, c11DBHead, c11DBHeadHeader, c11DBPuts, c11DBBody, c11DBHeader, c11Written, c11StateCommitted, c11TrieFail, c11Lookups, c11BatchOK, c11LastIns, c11LastIdx, c11NC
+//@ ghost at entry: c11Written := nil
+//@ ghost at entry: c11StateCommitted := false
+//@ ghost at entry: c11TrieFail := false
+//@ ghost at entry: c11Lookups := nil
+//@ ghost at entry: c11BatchOK := false
+//@ ghost after call core/rawdb.WriteBlock: c11Written := a1
+//@ ghost after call (*core/state.StateDB).Commit: c11StateCommitted := ret3 == nil
+//@ ghost after call (*trie.Database).Commit: c11TrieFail := c11TrieFail || ret != nil
+//@ ghost after call core/rawdb.WriteTxLookupEntries: c11Lookups := a1
+//@ ghost after call (youdb.Batch).Write: c11BatchOK := ret == nil
+//@ assert before call (*core/state.StateDB).Commit: [commit-the-given-state] a0 == state
+//@ assert before call (*trie.Database).Commit: [flush-a-root-of-this-state] a1 == root || a1 == valRoot || a1 == stakingRoot
+// (the error of TrieDB().Commit used to be logged only: repaired, see /verif/known_findings.json "fixed")
+//@ loop #1 invariant [no-flush-error-swallowed] !c11TrieFail
+//@ loop #1 invariant [block-stored-and-state-committed] c11Written == block && c11StateCommitted && c11Lookups == nil && !c11BatchOK
+//@ assert before call core/rawdb.WriteTxLookupEntries: [lookups-of-this-block-into-the-batch] a0 == batch && a1 == block
+//@ assert before call (youdb.Batch).Write: [the-batch-with-the-lookups] recv == batch && c11Lookups == block
+//@ assert before call (*BlockChain).reorg: [block-and-state-before-reorg] a2 == block && c11Written == block && c11StateCommitted
+//@ assert before call (*BlockChain).reorg: [state-durable-before-reorg] !c11TrieFail
+//@ assert before call (*BlockChain).insert: [block-and-state-before-head] a1 == block && c11Written == block && c11StateCommitted
+//@ assert before call (*BlockChain).insert: [state-durable-before-head] !c11TrieFail
+//@ assert before call (*BlockChain).insert: [lookups-and-receipts-before-head] c11Lookups == block && c11BatchOK
+//@ ensures [stored] c11DBBody[c11Hash(block)] && c11DBHeader[c11Hash(block)]
+//@ ensures [head-is-the-block] result == nil ==> c11DBHead == c11Hash(block) && c11DBCanon[c11Num(block)] == c11Hash(block)
+
+// WriteBlockWithoutState stores the block and touches no marker of the chain index.
+//@ func (*BlockChain).WriteBlockWithoutState props C11
+//@ requires [nonnil] bc != nil && block != nil && block.header != nil && block.header.Number != nil
+//@ modifies all, c11DBBody, c11DBHeader
+//@ ensures [stored] result == nil && c11DBBody[c11Hash(block)] && c11DBHeader[c11Hash(block)]
+
+// ---------------------------------------------------------------------------------------------------------------
+// block_validator.go: what "validated" means (clause 5)
+// ---------------------------------------------------------------------------------------------------------------
+
+// The chain as seen by the validator (interface): lookups fill caches only (outside the model). ASSUMED frames.
+//@ func (BlockChainState).HasBlockAndState props C11
+//@ trusted
+//@ pure
+//@ func (BlockChainState).HasBlock props C11
+//@ trusted
+//@ pure
+//@ func (BlockChainState).GetHeaderByNumber props C11
+//@ trusted
+//@ pure
+
+//@ ghost var c11ParentHasState: bool     // HasBlockAndState(parent hash, number-1) answered true
+//@ ghost var c11IRoot: common.Hash       // the three roots IntermediateRoot(true) returned for the given state
+//@ ghost var c11IValRoot: common.Hash
+//@ ghost var c11IStakingRoot: common.Hash
+
+// ValidateBody accepts a block only if its parent is stored with its state and the transaction list hashes to the header's TxHash.
+//@ func (*BlockValidator).ValidateBody props C11
+//@ requires [nonnil] v != nil && v.bc != nil && block != nil && block.header != nil && block.header.Number != nil
+//@ modifies c11ParentHasState
+//@ ghost at entry: c11ParentHasState := false
+//@ ghost after call (BlockChainState).HasBlockAndState: c11ParentHasState := if a0 == block.header.ParentHash && a1 == wrap64(c11Num(block) - 1) then ret else c11ParentHasState
+//@ ensures [tx-root] result == nil ==> block.header.TxHash == c11TxRoot(block.transactions)
+//@ ensures [parent-stored-with-state] result == nil ==> c11ParentHasState
+
+// ValidateState accepts only if all six comparisons hold, for the state and receipts it was given.
+//@ func (*BlockValidator).ValidateState props C11
+//@ requires [nonnil] v != nil && block != nil && block.header != nil && statedb != nil
+//@ modifies c11IRoot, c11IValRoot, c11IStakingRoot
+//@ assert before call (*core/state.StateDB).IntermediateRoot: [roots-of-the-given-state] a0 == statedb
+//@ ghost after call (*core/state.StateDB).IntermediateRoot: c11IRoot := ret0
+//@ ghost after call (*core/state.StateDB).IntermediateRoot: c11IValRoot := ret1
+//@ ghost after call (*core/state.StateDB).IntermediateRoot: c11IStakingRoot := ret2
+//@ ensures [gas-used] result == nil ==> block.header.GasUsed == usedGas
+//@ ensures [bloom] result == nil ==> block.header.Bloom == c11Bloom(receipts)
+//@ ensures [receipt-root] result == nil ==> block.header.ReceiptHash == c11ReceiptRoot(receipts)
+//@ ensures [state-root] result == nil ==> block.header.Root == c11IRoot
+//@ ensures [validator-root] result == nil ==> block.header.ValRoot == c11IValRoot
+//@ ensures [staking-root] result == nil ==> block.header.StakingRoot == c11IStakingRoot
+
+// ---------------------------------------------------------------------------------------------------------------
+// Restart (clause 4): loadLastState / repair make a block the in-memory head only if its state opens
+// ---------------------------------------------------------------------------------------------------------------
+
+// GetBlock: cache, then database. ASSUMED (`nobody`): the caches are transparent, and database integrity — a block read
+// under (hash, number) has that hash and number (rawdb.ReadBlock does not re-hash what it decodes).
+//@ func (*BlockChain).GetBlock props C11
+//@ nobody
+//@ pure
+//@ ensures result != nil ==> c11Hash(result) == hash && c11Num(result) == number && result.header != nil && result.header.Number != nil
+
+//@ func (*BlockChain).GetBlockByHash props C11
+//@ nobody
+//@ pure
+//@ ensures result != nil ==> c11Hash(result) == hash && result.header != nil && result.header.Number != nil
+
+//@ func (*BlockChain).Reset props C11
+//@ nobody
+//@ modifies all, c11DBCanon, c11DBHead, c11DBHeadHeader, c11DBPuts, c11DBBody, c11DBHeader
+
+//@ ghost var c11Avail: *types.Block        // the block whose three roots state.New opened without error: its state is available
+
+//@ func (*BlockChain).repair props C11
+//@ requires [nonnil] bc != nil && head != nil && *head != nil && (*head).header != nil && (*head).header.Number != nil
+//@ modifies all, c11Avail
+//@ loop #1 invariant [head-is-a-stored-block] *head != nil && (*head).header != nil && (*head).header.Number != nil
+//@ assert before call core/state.New: [opens-the-roots-of-the-candidate] a0 == (*head).header.Root && a1 == (*head).header.ValRoot && a2 == (*head).header.StakingRoot
+//@ ghost after call core/state.New: c11Avail := if ret1 == nil then *head else nil
+//@ assert before call (*BlockChain).GetBlock: [rewinds-to-the-parent] a1 == c11ParentHash(*head) && a2 == wrap64(c11Num(*head) - 1)
+//@ ensures [head-state-available] result == nil ==> *head != nil && c11Avail == *head
+//@ ensures [error-only-if-an-ancestor-is-missing] result != nil ==> *head != nil
+
+//@ func (*BlockChain).loadLastState props C11
+//@ requires [nonnil] bc != nil && bc.hc != nil
+//@ modifies all, c11Avail, c11DBCanon, c11DBHead, c11DBHeadHeader, c11DBPuts, c11DBBody, c11DBHeader
+//@ assert before call core/state.New: [opens-the-roots-of-the-head-block] currentBlock != nil && a0 == currentBlock.header.Root && a1 == currentBlock.header.ValRoot && a2 == currentBlock.header.StakingRoot
+//@ ghost after call core/state.New: c11Avail := if ret1 == nil then currentBlock else nil
+//@ assert before call (*sync/atomic.Value).Store: [head-state-available] currentBlock != nil && c11Avail == currentBlock && a1 == box(currentBlock)
+//@ assert before call (*HeaderChain).SetCurrentHeader: [head-header-of-the-head-block] c11HeaderOf(a1) == currentBlock
+
+// ---------------------------------------------------------------------------------------------------------------
+// InsertChain (the exported entry) and insertSidechain
+// ---------------------------------------------------------------------------------------------------------------
+
+// b follows a: next number (as uint64: the successor of 2^64-1 is 0, exactly what the code compares) and parent hash = a's hash
+//@ spec func c11Follows(a: *types.Block, b: *types.Block) bool =
+//@     (c11Num(b) == c11Num(a) + 1 || (c11Num(b) == 0 && c11Num(a) == 2^64 - 1)) && c11ParentHash(b) == c11Hash(a)
+//@ spec func c11Linked(chain: types.Blocks, n: int) bool =
+//@     forall k: int :: { chain[k] } 1 <= k && k < n ==> c11Follows(chain[k-1], chain[k])
+
+// Only a contiguous, hash-linked chain whose protocol-version state was verified reaches insertChain, unchanged.
+// VerifyYouVersionState (property C12 verifies what it checks) only reads the headers. ASSUMED frame.
+//@ func (*BlockChain).VerifyYouVersionState props C11
+//@ nobody
+//@ pure
+
+//@ func (*BlockChain).InsertChain props C11
+//@ requires [nonnil] bc != nil
+//@ requires [nonnil-blocks] forall k: int :: { chain[k] } 0 <= k && k < len(chain) ==> chain[k] != nil && chain[k].header != nil && chain[k].header.Number != nil
+//@ modifies all, c11VersionOK, c11SideOK, c11Seal, c11Body, c11ExecBlk, c11ExecSt, c11ExecRes, c11StateBlk, c11StateSt, c11UnknownParentState, c11Parent,
+//@          c11DBCanon, c11DBHead, c11DBHeadHeader, c11DBPuts, c11DBBody, c11DBHeader, c11Written, c11StateCommitted, c11TrieFail, c11Lookups, c11BatchOK, c11LastIns, c11LastIdx, c11NC
+//@ ghost at entry: c11VersionOK := false
+//@ loop i invariant [linked-so-far] 1 <= i && c11Linked(chain, i)
+//@ ghost after call (*BlockChain).VerifyYouVersionState: c11VersionOK := ret1 == nil
+//@ assert before call (*BlockChain).VerifyYouVersionState: [verify-this-chain] a1 == chain
+//@ assert before call (*BlockChain).insertChain: [only-linked-chains-are-imported] a1 == chain && len(chain) > 0 && c11Linked(chain, len(chain))
+//@ assert before call (*BlockChain).insertChain: [version-state-verified] c11VersionOK
+
+//@ ghost var c11SideOK: bool       // verifyAllSideChainBlocks accepted the side chain
+
+//@ func (*BlockChain).verifyAllSideChainBlocks props C11
+//@ nobody
+//@ modifies all
+
+// A side chain is stored (without state, no marker touched) only after every block of it was verified; it can become
+// canonical only by being re-imported through insertChain (full validation, above).
+//@ func (*BlockChain).insertSidechain props C11
+//@ requires [nonnil] bc != nil
+//@ modifies all, c11SideOK, c11Seal, c11Body, c11ExecBlk, c11ExecSt, c11ExecRes, c11StateBlk, c11StateSt, c11UnknownParentState, c11Parent,
+//@          c11DBCanon, c11DBHead, c11DBHeadHeader, c11DBPuts, c11DBBody, c11DBHeader, c11Written, c11StateCommitted, c11TrieFail, c11Lookups, c11BatchOK, c11LastIns, c11LastIdx, c11NC
+//@ ghost at entry: c11SideOK := false
+//@ ghost after call (*BlockChain).verifyAllSideChainBlocks: c11SideOK := ret == nil
+//@ loop #2 invariant [verified] c11SideOK
+//@ assert before call (*BlockChain).WriteBlockWithoutState: [side-blocks-verified-before-stored] c11SideOK && a1 == block
+
+// ---------------------------------------------------------------------------------------------------------------
+// reorg (clause 2): the rewritten range of the number index is parent-linked and attached to the common ancestor
+// ---------------------------------------------------------------------------------------------------------------
+
+// collectLogs (closure of reorg): appends copies of stored logs to the two captured log slices `deletedLogs` / `rebirthLogs`,
+// which only the event goroutine at the end of reorg reads (not modelled). ASSUMED frame (`nobody`): it writes nothing of the
+// modelled state — captured variables cannot be named in a closure's modifies clause (engine_requests/C11.md §9).
+//@ func (*BlockChain).reorg$1 props C11
+//@ nobody
+//@ pure
+
+// newChain is built youngest first: newChain[k+1] is the parent of newChain[k]. The slice is mirrored in the ghost sequence c11NC
+// (updated where the walk-back has just appended its cursor); linking is stated over the mirror, a plain SMT array whose
+// select pattern contains neither an ite nor arithmetic (engine_requests/C11.md §8), and [mirror] ties the slice to it.
+//@ ghost var c11NC: map[int]*types.Block
+//@ spec func c11NumFollows(a: *types.Block, b: *types.Block) bool = c11Num(b) == c11Num(a) + 1 || (c11Num(b) == 0 && c11Num(a) == 2^64 - 1)
+//@ spec func c11MirrorU(c: types.Blocks, nc: map[int]*types.Block) bool = forall k: int :: 0 <= k && k < len(c) ==> c[k] == nc[k]
+//@ spec func c11Mirror(c: types.Blocks, nc: map[int]*types.Block) bool = forall k: int :: { nc[k] } 0 <= k && k < len(c) ==> c[k] == nc[k]
+//@ spec func c11NCNums(nc: map[int]*types.Block, n: int) bool = forall k: int :: { nc[k] } 0 <= k && k + 1 < n ==> c11NumFollows(nc[k+1], nc[k])
+//@ spec func c11NCHashes(nc: map[int]*types.Block, n: int) bool = forall k: int :: { nc[k] } 0 <= k && k + 1 < n ==> c11ParentHash(nc[k]) == c11Hash(nc[k+1])
+// the walk-back cursor `cur` is the parent of the last block collected; the first block collected is the block to become head
+//@ spec func c11Cursor(nc: map[int]*types.Block, n: int, cur: *types.Block, first: *types.Block) bool =
+//@     (n == 0 ==> cur == first) && (n > 0 ==> nc[0] == first && (cur != nil ==> c11Follows(cur, nc[n-1])))
+
+// `logFn := logging.Debug; if len(oldChain) > 63 { logFn = logging.Warn }; logFn(…)` (blockchain.go:924-929): a call through a local
+// function variable that is a phi of two loggers. The engine names it by its SSA register and would havoc the whole heap
+// (engine_requests/C11.md §7); both possible callees are loggers (effect-free by the engine's own list).
+//@ effectfree dynamic:t120
+
+//@ ghost var c11LastIdx: int                // … and its index in newChain
+//@ ghost var c11LastIns: *types.Block      // reorg: the block made head by the previous iteration of the rewrite loop (nil: none yet)
+
+//@ func (*BlockChain).reorg props C11
+//@ requires [nonnil] bc != nil && bc.hc != nil && oldBlock != nil && newBlock != nil
+//@ modifies all, c11DBCanon, c11DBHead, c11DBHeadHeader, c11DBPuts, c11LastIns, c11LastIdx, c11NC
+//@ ghost at entry: c11LastIns := nil
+//@ ghost after call (*BlockChain).insert: c11LastIns := a1
+//@ ghost after call (*BlockChain).insert: c11LastIdx := i
+//@ loop #1 invariant [new-side-untouched] c11LastIns == nil
+// at every GetBlock call of the walk-back the cursor newBlock has just been appended to newChain (on the old side of the first
+// loop newChain is still empty: index -1, never read) — no `#k`, whose numbering follows the engine's visiting order
+//@ ghost before call (*BlockChain).GetBlock: c11NC := store(c11NC, len(newChain) - 1, newBlock)
+//@ loop #2 invariant [nothing-rewritten-yet] c11LastIns == nil
+//@ loop #2 invariant [mirror] c11MirrorU(newChain, c11NC)
+//@ loop #2 invariant [cursor] c11Cursor(c11NC, len(newChain), newBlock, old(newBlock))
+//@ loop #2 invariant [new-chain-numbers] c11NCNums(c11NC, len(newChain))
+//@ loop #2 invariant [new-chain-hashes] c11NCHashes(c11NC, len(newChain))
+//@ loop #3 invariant [same-height] c11Num(oldBlock) == c11Num(newBlock)
+//@ loop #3 invariant [separate-arrays] cap(oldChain) > 0 && cap(newChain) > 0 ==> base(oldChain) != base(newChain)
+//@ loop #3 invariant [nothing-rewritten-yet] c11LastIns == nil && newBlock != nil && oldBlock != nil
+//@ loop #3 invariant [mirror] c11MirrorU(newChain, c11NC)
+//@ loop #3 invariant [cursor] c11Cursor(c11NC, len(newChain), newBlock, old(newBlock))
+//@ loop #3 invariant [new-chain-numbers] c11NCNums(c11NC, len(newChain))
+//@ loop #3 invariant [new-chain-hashes] c11NCHashes(c11NC, len(newChain))
+//@ loop #4 invariant [range] -1 <= i && i < len(newChain)
+//@ loop #4 invariant [mirror] c11Mirror(newChain, c11NC)
+//@ loop #4 invariant [new-chain-numbers] c11NCNums(c11NC, len(newChain))
+//@ loop #4 invariant [new-chain-hashes] c11NCHashes(c11NC, len(newChain))
+//@ loop #4 invariant [attached] len(newChain) > 0 ==> c11NC[0] == old(newBlock) && c11Follows(commonBlock, c11NC[len(newChain)-1])
+//@ loop #4 invariant [previous-head] c11LastIns != nil ==> 0 <= c11LastIdx && c11LastIdx < len(newChain) && c11LastIns == c11NC[c11LastIdx] && c11LastIdx == i + 1
+//@ loop #4 invariant [first] c11LastIns == nil ==> i == len(newChain) - 1
+//@ loop #4 invariant [nothing-yet] c11LastIns == nil ==> c11DBHead == old(c11DBHead) && c11DBCanon == old(c11DBCanon)
+//@ loop #4 invariant [head-follows] c11LastIns != nil ==> c11DBHead == c11Hash(c11LastIns)
+// every block made head is the child (number + 1, parent hash) of the block made head just before it; the first one is the
+// child of the common ancestor
+//@ assert before call (*BlockChain).insert: [new-head-is-a-collected-block] a1 == newChain[i] && a1 == c11NC[i]
+//@ assert before call (*BlockChain).insert: [first-new-head-is-the-child-of-the-common-ancestor] c11LastIns == nil ==> c11Follows(commonBlock, a1)
+//@ assert before call (*BlockChain).insert: [each-new-head-has-the-next-number] c11LastIns != nil ==> c11NumFollows(c11LastIns, a1)
+//@ assert before call (*BlockChain).insert: [each-new-head-is-the-child-of-the-previous] c11LastIns != nil ==> c11ParentHash(a1) == c11Hash(c11LastIns)
+//@ assert before call core/rawdb.WriteTxLookupEntries: [lookups-of-the-block-just-made-canonical] a1 == c11LastIns
+// on success the head marker is the new block's (or nothing was rewritten: "impossible reorg", old and new block identical)
+//@ ensures [head-is-the-new-block] result == nil ==> c11DBHead == c11Hash(old(newBlock)) || c11DBHead == old(c11DBHead)
+// an error is returned only before the first marker is moved
+//@ ensures [error-before-any-rewrite] result != nil ==> c11DBHead == old(c11DBHead) && c11DBCanon == old(c11DBCanon)
